@@ -33,6 +33,18 @@ func (c *ConfigReceiver) Group() curve.Curve {
 	return c.Public.Curve()
 }
 
+// Validate checks that the config is complete, i.e. that none of the key material
+// produced by a successful keygen or refresh is missing.
+func (c *ConfigReceiver) Validate() error {
+	if c == nil {
+		return errors.New("config: config is nil")
+	}
+	if c.Setup == nil || c.SecretShare == nil || c.Public == nil {
+		return errors.New("config: key material is missing")
+	}
+	return nil
+}
+
 // Derive performs an arbitrary derivation of a related key, by adding a scalar.
 //
 // This can support methods like BIP32, but is more general.
@@ -88,6 +100,18 @@ type ConfigSender struct {
 // Group returns the elliptic curve group associate with this config.
 func (c *ConfigSender) Group() curve.Curve {
 	return c.Public.Curve()
+}
+
+// Validate checks that the config is complete, i.e. that none of the key material
+// produced by a successful keygen or refresh is missing.
+func (c *ConfigSender) Validate() error {
+	if c == nil {
+		return errors.New("config: config is nil")
+	}
+	if c.Setup == nil || c.SecretShare == nil || c.Public == nil {
+		return errors.New("config: key material is missing")
+	}
+	return nil
 }
 
 // StartKeygen starts the key generation protocol.
